@@ -37,7 +37,7 @@ def make_cfg(gated: set) -> pg.GenCfg:
 def gen(tier: str, seed: int) -> list[Case]:
     rng = rng_for(seed, PID, "gen")
     cfg = make_cfg(gated_features())
-    n = 24 if tier == "quick" else 400
+    n = 24 if tier == "quick" else 1600
     cases = []
     spell = ["abs", "rel", "abs_slash", "rel_slash", "dotdot", "rel_dot"]
     for i in range(n):
